@@ -1399,7 +1399,7 @@ impl C18 {
     /// Every way of making a variable 0 / "" again frees its slot.
     fn zeroing_case(&self, rng: &mut Rng, ctx: &mut Ctx) {
         // (make non-default, make default again)
-        const FORMS: [(&str, &str); 22] = [
+        const FORMS: [(&str, &str); 26] = [
             ("A%=1", "A%=A%/2"),
             ("A%=7", "A%=0.4"),
             ("B!=1", "B!=1D-60"),
@@ -1422,6 +1422,11 @@ impl C18 {
             ("T!=1", "T!=T!-T!"),
             ("U$=\"AB\"", "MID$(U$,1)=\"CD\":U$=RIGHT$(U$,0)"),
             ("V=3", "V=VAL(\"\")"),
+            // zeros that carry a minus sign are zeros too
+            ("W=2", "W=-(W-2)"),
+            ("X1!=3", "X1!=-X1!*0"),
+            ("Y1#=1", "Y1#=FIX(-.5)"),
+            ("Z1(2)=4", "Z1(2)=0:Z1(2)=-Z1(2)"),
         ];
         let mut order: Vec<usize> = (0..FORMS.len()).collect();
         rng.shuffle(&mut order);
@@ -1553,7 +1558,7 @@ impl Prop for C18 {
          (a completed statement leaves nothing, an abandoned loop exactly one frame); the probe also asserts that no \
          default value (0 / \"\") occupies a variable slot. One in four all-flat programs is then run for 3000 passes \
          at full speed: stack depth <= 64 and live heap bytes (counting allocator) may not grow by more than 256 KiB. \
-         (e) zeroing monitor: 4..22 variables of every type are set, then made 0 / \"\" again in 22 different ways \
+         (e) zeroing monitor: 4..26 variables of every type are set, then made 0 / \"\" again in 26 different ways (negative zeros included) \
          (literal, arithmetic, coercion A%=0.4, underflow, MOD, string functions, SWAP, FOR, VAL); the pool must be \
          empty. Heap: the counting allocator bounds the high-water mark at every limit (96 MiB) and the growth over \
          every leak loop (512 KiB). Distinct = hash of program text; non-trivial for (d) = >= 6 markers and >= 4 \
